@@ -24,7 +24,7 @@ def _doc_batch(args):
             w = E.doc_case(_W['drv'], rnd, cls=rnd.choice(E.HARD if rnd.random() < opts.get('hard', 0.125) else big if k % 4 else E.ALL), depth=rnd.choice(opts.get('depths', [0, 1, 2])),
                            mixed_chk=rnd.random() < opts.get('mixed', 0.25), copy=rnd.random() < opts.get('copy', 0.3),
                            dots=opts.get('dots', True), roots=rnd.choice(opts.get('roots', [1])),
-                           reuse=rnd.random() < opts.get('reuse', 0.35), sandwich=rnd.random() < opts.get('sandwich', 0.1), scratch=rnd.random() < opts.get('scratch', 0.1))
+                           reuse=rnd.random() < opts.get('reuse', 0.35), sandwich=rnd.random() < opts.get('sandwich', 0.1), scratch=rnd.random() < opts.get('scratch', 0.1), twins=rnd.random() < opts.get('twins', 0.15))
         except Exception:
             import traceback
             out['dis'].append({'harness_error': traceback.format_exc()[-1200:]})
@@ -108,6 +108,7 @@ def generic(ctx, prop, opts, n_quick=(16, 25), n_thorough=(64, 120), with_values
     """oracle(dis) -> description or None: property-specific classification of a disagreement"""
     import findings
     nb, per = n_quick if ctx.tier == 'quick' else n_thorough
+    per *= 8 if ctx.tier == 'quick' else 12      # documents are cheap (~10^4 operation lines per second and core)
     agg = run_docs(ctx.seed, nb, per, opts)
     violations = []
     harness_errors = [d for d in agg['dis'] if 'harness_error' in d]
